@@ -8,7 +8,7 @@ cd $WT
 PYTHONPATH=$WT /venv/bin/python $D/demo.py >/dev/null 2>&1; r0=$?
 git apply --3way $D/patch.diff >/dev/null 2>&1 || git apply $D/patch.diff || { echo "$N: PATCH DOES NOT APPLY to HEAD"; exit 8; }
 PYTHONPATH=$WT /venv/bin/python $D/demo.py >/dev/null 2>&1; r1=$?
-base=$(/tmp/seedtools/run_baseline.sh $WT | tail -1)
+base=$(/verif/tools/run_baseline.sh $WT | tail -1)
 echo "$N: demo unpatched rc=$r0 (want 0), patched rc=$r1 (want 1), $base"
 if [ $r0 = 0 ] && [ $r1 = 1 ] && [ "$base" = "BASELINE OK" ]; then
   mkdir -p /verif/seeded/$N && git -C $WT diff HEAD > /verif/seeded/$N/patch.diff && cp $D/demo.py /verif/seeded/$N/demo.py
